@@ -807,3 +807,261 @@ def item_virtual_registry_order(repo, out):
 
 
 ITEMS.append(item_virtual_registry_order)
+
+
+# ---------------------------------------------------------------------------------------------------------------
+# Extension round 2 (Model/SensorNum.v): the virtual sensors that are plain arithmetic, and in-place writes on the
+# cached arrays of source sensors.
+#   item_virtual_arith      `_calc_mjd` (dataset.py) and `_calc_azel` of the four format modules are unified with
+#                           whole-function patterns (templates parsed by vh.translate.parse_template, i.e. in the same
+#                           normal form as the katdal files); emits the conversion function, the name test that picks
+#                           azimuth / elevation and the two real source sensor names per module; the numeric branch of
+#                           `_extract` returns np.interp's result as it is (no cast): `sensor_numeric_cast`.
+#   item_virtual_no_inplace every function registered as a virtual sensor: a name bound to (a view of) what
+#                           `cache.get(...)` / `cache[...]` / `cache.timestamps` returned is an alias of a CACHED array;
+#                           augmented assignment to it, item assignment into it, passing it as `out=`, calling an
+#                           in-place ndarray method on it or handing it to np.copyto / np.put / np.place / np.putmask
+#                           as the destination is an in-place write on a source sensor.  The count is emitted
+#                           (`virtual_inplace_writes`); Model/SensorNum.virtual_ipv is true iff it is not 0.
+from vh.translate import parse_template
+
+P_CALC_MJD = '''
+def _calc_mjd(cache, name):
+    cache[name] = mjd = np.array([katpoint.Timestamp(t).to_mjd() for t in cache.timestamps[:]])
+    return mjd
+'''
+
+P_CALC_AZEL_H5 = '''
+def _calc_azel(cache, name, ant):
+    base_name = K_az if name.endswith(K_suffix) else K_el
+    real_sensor = f'Antennas/{ant}/{base_name}'
+    cache[name] = sensor_data = katpoint.A_conv(cache.get(real_sensor))
+    return sensor_data
+'''
+
+P_CALC_AZEL_V4 = '''
+def _calc_azel(cache, name, ant):
+    suffix = K_az if name.endswith(K_suffix) else K_el
+    real_sensor = f'{ant}_pos_actual_scan_{suffix}'
+    cache[name] = sensor_data = katpoint.A_conv(cache.get(real_sensor))
+    return sensor_data
+'''
+
+P_EXTRACT_TAIL = '''
+def f():
+    sensor_data = np.interp(timestamps, sensor_timestamps, sensor_data.value)
+'''
+
+
+def _match_template(repo, rel, fname, pattern_src):
+    """like _match_function for a module-level function, with the template in the translator's normal form"""
+    import textwrap
+    tree = _parse(repo, rel)
+    fn = _find_func(tree, fname, rel)
+    pat = parse_template(textwrap.dedent(pattern_src)).body[0]
+    env = {}
+    try:
+        _unify(pat, fn, env, fname)
+    except _NoMatch as e:
+        raise TranslateError('%s: %s no longer has the shape the model mirrors: %s' % (rel, fname, e))
+    return env
+
+
+def item_virtual_arith(repo, out):
+    _match_template(repo, 'katdal/dataset.py', '_calc_mjd', P_CALC_MJD)
+    out.append('Definition mjd_steps : list string := %s.'
+               % coq_strings(('per dump: katpoint.Timestamp(t).to_mjd()', 'over cache.timestamps[:]', 'stored under name')))
+    rows, convs, suffixes = [], set(), set()
+    for rel, pat, fmt in (('katdal/h5datav1.py', P_CALC_AZEL_H5, 'Antennas/{ant}/%s'),
+                          ('katdal/h5datav2.py', P_CALC_AZEL_H5, 'Antennas/{ant}/%s'),
+                          ('katdal/h5datav3.py', P_CALC_AZEL_H5, 'Antennas/{ant}/%s'),
+                          ('katdal/visdatav4.py', P_CALC_AZEL_V4, '{ant}_pos_actual_scan_%s')):
+        e = _match_template(repo, rel, '_calc_azel', pat)
+        for k in ('K_az', 'K_el', 'K_suffix'):
+            if not isinstance(e[k], str):
+                raise TranslateError('%s:_calc_azel: %s is %r, expected a string' % (rel, k, e[k]))
+        convs.add(e['A_conv'])
+        suffixes.add(e['K_suffix'])
+        rows.append((os.path.basename(rel)[:-3], fmt % e['K_az'], fmt % e['K_el']))
+    if len(convs) != 1 or len(suffixes) != 1:
+        raise TranslateError('_calc_azel: the format modules disagree on the conversion %r / the name test %r'
+                             % (sorted(convs), sorted(suffixes)))
+    conv = convs.pop()
+    if conv not in ('deg2rad', 'rad2deg'):
+        raise TranslateError('_calc_azel: conversion katpoint.%s is not modelled' % conv)
+    out.append('Definition azel_convert : string := %s.' % _coq_str(conv, 'conversion'))
+    out.append('Definition azel_az_suffix : string := %s.' % _coq_str(suffixes.pop(), 'name test'))
+    out.append('Definition azel_sources : list (string * (string * string)) := [%s].'
+               % '; '.join('(%s, (%s, %s))' % tuple(_coq_str(x, 'source name') for x in r) for r in rows))
+    # the numeric branch of _extract: the result of np.interp is returned as it is (P_EXTRACT pins the whole function;
+    # here the last assignment of the else-branch is looked at on its own so that the fact has a name in Generated.v)
+    tree = _parse(repo, 'katdal/sensordata.py')
+    cls = [n for n in tree.body if isinstance(n, ast.ClassDef) and n.name == 'SensorCache']
+    fn = [n for n in (cls[0].body if cls else []) if isinstance(n, ast.FunctionDef) and n.name == '_extract']
+    if len(fn) != 1:
+        raise TranslateError('katdal/sensordata.py: SensorCache._extract not found')
+    ifs = [s for s in _stmts(fn[0].body) if isinstance(s, ast.If) and isinstance(s.test, ast.Name) and s.test.id == 'categ']
+    if len(ifs) != 1 or not ifs[0].orelse:
+        raise TranslateError('katdal/sensordata.py:_extract: no `if categ: ... else: ...`')
+    last = _stmts(ifs[0].orelse)[-1]
+    pat = parse_template(P_EXTRACT_TAIL.strip()).body[0].body[0]
+    try:
+        _unify(pat, last, {}, '_extract.else[-1]')
+    except _NoMatch as e:
+        raise TranslateError('katdal/sensordata.py:_extract: the numeric branch does not end in '
+                             '`sensor_data = np.interp(timestamps, sensor_timestamps, sensor_data.value)`: %s' % e)
+    after = _stmts(fn[0].body)
+    if not (isinstance(after[-1], ast.Return) and isinstance(after[-1].value, ast.Name) and after[-1].value.id == 'sensor_data'
+            and after[-2] is ifs[0]):
+        raise TranslateError('katdal/sensordata.py:_extract: something happens between the numeric branch and the return')
+    out.append('Definition sensor_numeric_cast : string := ""%string.')
+    out.append('Definition sensor_interp_args : list string := %s.'
+               % coq_strings(('timestamps', 'sensor_timestamps', 'sensor_data.value')))
+
+
+ITEMS.append(item_virtual_arith)
+
+
+_INPLACE_METHODS = {'sort', 'fill', 'put', 'itemset', 'resize', 'partition', 'setfield', 'byteswap', 'clip_inplace'}
+_INPLACE_NP = {'copyto', 'put', 'place', 'putmask', 'put_along_axis', 'fill_diagonal'}
+
+
+def _cache_rooted(node):
+    """expression that IS (a view of) something the cache handed out: cache.get(...)/cache[...]/cache.timestamps,
+    possibly indexed / transposed"""
+    while True:
+        if isinstance(node, ast.Subscript):
+            if isinstance(node.value, ast.Name) and node.value.id == 'cache':
+                return True
+            node = node.value
+        elif isinstance(node, ast.Attribute) and node.attr in ('T', 'real', 'imag', 'flat'):
+            node = node.value
+        elif isinstance(node, ast.Call) and isinstance(node.func, ast.Attribute) and \
+                node.func.attr in ('view', 'reshape', 'ravel', 'squeeze', 'transpose', 'swapaxes'):
+            node = node.func.value
+        else:
+            break
+    if isinstance(node, ast.Call) and isinstance(node.func, ast.Attribute) and isinstance(node.func.value, ast.Name) \
+            and node.func.value.id == 'cache' and node.func.attr in ('get', 'get_with_fallback'):
+        return True
+    if isinstance(node, ast.Attribute) and isinstance(node.value, ast.Name) and node.value.id == 'cache' \
+            and node.attr == 'timestamps':
+        return True
+    return False
+
+
+def _root_name(node):
+    while isinstance(node, (ast.Subscript, ast.Attribute)):
+        node = node.value
+    return node.id if isinstance(node, ast.Name) else None
+
+
+def _inplace_writes(fn, rel):
+    """[(line, what)] of in-place writes on arrays obtained from the cache, statements taken in source order"""
+    tainted, found = set(), []
+
+    def is_alias(expr):
+        if _cache_rooted(expr):
+            return True
+        r = expr
+        while isinstance(r, (ast.Subscript, ast.Attribute)):
+            if isinstance(r, ast.Attribute) and r.attr not in ('T', 'real', 'imag', 'flat'):
+                return False
+            r = r.value
+        return isinstance(r, ast.Name) and r.id in tainted
+
+    def bind(target, value):
+        if isinstance(target, ast.Name):
+            (tainted.add if is_alias(value) else tainted.discard)(target.id)
+        elif isinstance(target, (ast.Tuple, ast.List)):
+            vals = value.elts if isinstance(value, (ast.Tuple, ast.List)) and len(value.elts) == len(target.elts) else None
+            for i, t in enumerate(target.elts):
+                if vals is not None:
+                    bind(t, vals[i])
+                elif isinstance(t, ast.Name):
+                    (tainted.add if is_alias(value) else tainted.discard)(t.id)
+
+    def calls(node):
+        for c in ast.walk(node):
+            if not isinstance(c, ast.Call):
+                continue
+            for kw in c.keywords:
+                if kw.arg == 'out':
+                    outs = kw.value.elts if isinstance(kw.value, (ast.Tuple, ast.List)) else [kw.value]
+                    for o in outs:
+                        if is_alias(o):
+                            found.append((c.lineno, 'out=%s' % ast.unparse(o)))
+            f = c.func
+            if isinstance(f, ast.Attribute) and f.attr in _INPLACE_METHODS and is_alias(f.value):
+                found.append((c.lineno, '%s.%s()' % (ast.unparse(f.value), f.attr)))
+            if isinstance(f, ast.Attribute) and isinstance(f.value, ast.Name) and f.value.id in ('np', 'numpy'):
+                if f.attr in _INPLACE_NP and c.args and is_alias(c.args[0]):
+                    found.append((c.lineno, 'np.%s(%s, ...)' % (f.attr, ast.unparse(c.args[0]))))
+                elif len(c.args) >= 2 and is_alias(c.args[-1]) and f.attr not in _INPLACE_NP and \
+                        any(ast.dump(a) == ast.dump(c.args[-1]) for a in c.args[:-1]):
+                    found.append((c.lineno, 'np.%s(..., %s) with the input as positional out' % (f.attr, ast.unparse(c.args[-1]))))
+
+    def walk(stmts):
+        for st in stmts:
+            if isinstance(st, ast.Assign):
+                calls(st.value)
+                for t in st.targets:
+                    if isinstance(t, (ast.Subscript, ast.Attribute)) and _root_name(t) in tainted:
+                        found.append((st.lineno, '%s = ...' % ast.unparse(t)))
+                for t in st.targets:
+                    bind(t, st.value)
+            elif isinstance(st, ast.AugAssign):
+                calls(st.value)
+                if _root_name(st.target) in tainted or _cache_rooted(st.target):
+                    found.append((st.lineno, '%s %s= ...' % (ast.unparse(st.target), type(st.op).__name__)))
+            elif isinstance(st, ast.AnnAssign):
+                if st.value is not None:
+                    calls(st.value)
+                    bind(st.target, st.value)
+            elif isinstance(st, (ast.If, ast.While)):
+                calls(st.test)
+                walk(st.body)
+                walk(st.orelse)
+            elif isinstance(st, ast.For):
+                calls(st.iter)
+                bind(st.target, ast.Constant(None))
+                walk(st.body)
+                walk(st.orelse)
+            elif isinstance(st, ast.With):
+                walk(st.body)
+            elif isinstance(st, ast.Try):
+                walk(st.body)
+                for h in st.handlers:
+                    walk(h.body)
+                walk(st.orelse)
+                walk(st.finalbody)
+            elif isinstance(st, (ast.Return, ast.Expr)):
+                if st.value is not None:
+                    calls(st.value)
+            elif isinstance(st, (ast.Pass, ast.Raise, ast.Assert, ast.Import, ast.ImportFrom, ast.Break, ast.Continue)):
+                pass
+            else:
+                raise TranslateError('%s:%s: statement %s (line %d) is not understood by the in-place analysis'
+                                     % (rel, fn.name, type(st).__name__, st.lineno))
+    walk(fn.body)
+    return found
+
+
+def item_virtual_no_inplace(repo, out):
+    total, where, seen = 0, [], set()
+    for rel, var in VIRT_REGISTRIES:
+        tree = _parse(repo, rel)
+        for _template, fname in _registry(tree, var, rel):
+            if (rel, fname) in seen:
+                continue
+            seen.add((rel, fname))
+            for line, what in _inplace_writes(_find_func(tree, fname, rel), rel):
+                total += 1
+                where.append('%s:%s:%d %s' % (rel, fname, line, what))
+    out.append('(* in-place writes on cached source arrays found in the registered virtual sensor functions: %s *)'
+               % ('; '.join(where).replace('*)', '* )') if where else 'none'))
+    out.append('Definition virtual_inplace_writes : Z := %s.' % coq_Z(total))
+    out.append('Definition virtual_functions_checked : Z := %s.' % coq_Z(len(seen)))
+
+
+ITEMS.append(item_virtual_no_inplace)
